@@ -9,17 +9,17 @@ Import ListNotations. Open Scope Z_scope.
 (* Induction principles for the nested inductives                      *)
 
 Section IconstInd.
-  Variable P : iconst -> Prop.
-  Hypothesis HNone : P INone.
-  Hypothesis HBool : forall b, P (IBool b).
-  Hypothesis HInt : forall z, P (IInt z).
-  Hypothesis HFloat : forall f, P (IFloat f).
-  Hypothesis HComplex : forall r i, P (IComplex r i).
-  Hypothesis HStr : forall s, P (IStr s).
-  Hypothesis HBytes : forall b, P (IBytes b).
-  Hypothesis HEllipsis : P IEllipsis.
-  Hypothesis HTuple : forall l, Forall P l -> P (ITuple l).
-  Hypothesis HFrozenset : forall l, Forall P l -> P (IFrozenset l).
+  Context (P : iconst -> Prop).
+  Context (HNone : P INone).
+  Context (HBool : forall b, P (IBool b)).
+  Context (HInt : forall z, P (IInt z)).
+  Context (HFloat : forall f, P (IFloat f)).
+  Context (HComplex : forall r i, P (IComplex r i)).
+  Context (HStr : forall s, P (IStr s)).
+  Context (HBytes : forall b, P (IBytes b)).
+  Context (HEllipsis : P IEllipsis).
+  Context (HTuple : forall l, Forall P l -> P (ITuple l)).
+  Context (HFrozenset : forall l, Forall P l -> P (IFrozenset l)).
 
   Fixpoint iconst_ind' (c : iconst) : P c :=
     match c as c0 return P c0 with
@@ -54,9 +54,9 @@ Definition cdP {C} (P : C -> Prop) (cd : code_data_ C) : Prop :=
   Forall (Forall (instrP P)) (cd_blocks cd) /\ Forall (argP P) (cd_addargs cd).
 
 Section ConstInd.
-  Variable P : const -> Prop.
-  Hypothesis HInner : forall i, P (KInner i).
-  Hypothesis HCode : forall cd, cdP P cd -> P (KCode cd).
+  Context (P : const -> Prop).
+  Context (HInner : forall i, P (KInner i)).
+  Context (HCode : forall cd, cdP P cd -> P (KCode cd)).
 
   Fixpoint const_ind' (c : const) : P c :=
     match c as c0 return P c0 with
@@ -179,6 +179,27 @@ Section RelLists.
       exists p. split; auto. exact (H p Hp q r Hpq Hqr).
   Qed.
 End RelLists.
+
+(* list_eqb (PyBase) is leqb, and option_eqb preserves the three properties as well *)
+Section RelListsOpt.
+  Context {A : Type} (eqb : A -> A -> bool).
+  Lemma list_eqb_refl_F l : Forall (reflP eqb) l -> reflP (list_eqb eqb) l.
+  Proof. intros H. unfold reflP. rewrite <- leqb_list_eqb. now apply leqb_refl_F. Qed.
+  Lemma list_eqb_sym_F l : Forall (symP eqb) l -> symP (list_eqb eqb) l.
+  Proof. intros H y. rewrite <- !leqb_list_eqb. now apply leqb_sym_F. Qed.
+  Lemma list_eqb_trans_F l : Forall (transP eqb) l -> transP (list_eqb eqb) l.
+  Proof. intros H y z. rewrite <- !leqb_list_eqb. now apply leqb_trans_F. Qed.
+
+  Lemma option_eqb_refl o : (forall x, reflP eqb x) -> reflP (option_eqb eqb) o.
+  Proof. intros H. unfold reflP in *. destruct o; cbn; auto. Qed.
+  Lemma option_eqb_sym o : (forall x, symP eqb x) -> symP (option_eqb eqb) o.
+  Proof. intros H. unfold symP in *. intros [y|] E; destruct o; cbn in *; try discriminate E; auto. Qed.
+  Lemma option_eqb_trans o : (forall x, transP eqb x) -> transP (option_eqb eqb) o.
+  Proof.
+    intros H. unfold transP in *.
+    intros [y|] [z|] E F; destruct o; cbn in *; try discriminate E; try discriminate F; eauto.
+  Qed.
+End RelListsOpt.
 
 (* ------------------------------------------------------------------ *)
 (* Floats                                                               *)
@@ -671,6 +692,9 @@ Proof.
   reflexivity.
 Qed.
 
+Lemma forallb_ext' {A} (g h : A -> bool) l : (forall a, g a = h a) -> forallb g l = forallb h l.
+Proof. intros E. induction l as [|a l IH]; cbn; auto. now rewrite E, IH. Qed.
+
 Section MapExt.
   Context {A B : Type} (f : A -> B) (e : B -> B -> bool).
   Lemma leqb_map x y : leqb e (map f x) (map f y) = leqb (fun a b => e (f a) (f b)) x y.
@@ -685,8 +709,8 @@ Section MapExt.
   Lemma fs_eqb_map x y : fs_eqb e (map f x) (map f y) = fs_eqb (fun a b => e (f a) (f b)) x y.
   Proof.
     unfold fs_eqb. rewrite !forallb_map_l. f_equal.
-    - apply forallb_ext. intros a. apply existsb_map_l.
-    - apply forallb_ext. intros b. apply (existsb_map_l (fun p => e p (f b))).
+    - apply forallb_ext'. intros a. apply existsb_map_l.
+    - apply forallb_ext'. intros b. apply (existsb_map_l (fun p => e p (f b))).
   Qed.
 End MapExt.
 
@@ -740,6 +764,29 @@ Proof.
     apply fs_eqb_ext_F. exact IH.
 Qed.
 
+(* The reference partition on floats is equality of patterns, so [nancanon] is needed in
+   [ikey_eqb_pykey]: two different NaN patterns are equal for the model and different for
+   _PyCode_ConstantKey. *)
+Lemma pykey_eqb_float x y : pykey_eqb (IFloat x) (IFloat y) = (x =? y).
+Proof.
+  unfold pykey_eqb. cbn [pykey kt_eqb zs_eqb].
+  change (TAG_FLOAT =? TAG_FLOAT) with true. change (TAG_FLOAT =? TAG_FROZENSET) with false.
+  now destruct (x =? y).
+Qed.
+
+Lemma ikey_eqb_pykey_needs_canon :
+  ikey_eqb (IFloat 9221120237041090560) (IFloat 9221120237041090561) = true
+  /\ pykey_eqb (IFloat 9221120237041090560) (IFloat 9221120237041090561) = false.
+Proof. split; vm_compute; reflexivity. Qed.
+
+Lemma ikey_eqb_pykey_differ x y :
+  ikey_eqb (IFloat x) (IFloat y) <> pykey_eqb (IFloat x) (IFloat y) <->
+  float_is_nan x = true /\ float_is_nan y = true /\ x <> y.
+Proof.
+  rewrite pykey_eqb_float. cbn [ikey_eqb]. unfold float_key_eqb.
+  destruct (float_is_nan x), (float_is_nan y), (Z.eqb_spec x y); cbn; intuition congruence.
+Qed.
+
 (* without NaNs the model is the reference partition *)
 Fixpoint nan_free (c : iconst) : bool :=
   match c with
@@ -765,3 +812,230 @@ Qed.
 Corollary ikey_eqb_pykey_nan_free a b :
   nan_free a = true -> nan_free b = true -> ikey_eqb a b = pykey_eqb a b.
 Proof. intros Ha Hb. now rewrite ikey_eqb_pykey, !nancanon_nan_free. Qed.
+
+(* ------------------------------------------------------------------ *)
+(* 5. Hashes computed from the key that equality compares               *)
+
+Definition mix (tag v : Z) : Z := tag + 16 * v.
+Definition float_hash (x : Z) : Z := if float_is_nan x then 0 else x.
+Definition zs_hash (l : list Z) : Z := fold_right (fun x acc => x + 31 * acc) 7 l.
+Definition opt_hash {A} (h : A -> Z) (o : option A) : Z :=
+  match o with None => 0 | Some x => 1 + 2 * h x end.
+Definition bool_hash (b : bool) : Z := if b then 1 else 0.
+(* sequences: order matters *)
+Definition lhash {A} (h : A -> Z) (l : list A) : Z := fold_right (fun x acc => h x + 31 * acc) 7 l.
+(* sets given as listings: commutative and idempotent, so duplicates and order do not matter *)
+Definition set_hash {A} (h : A -> Z) (l : list A) : Z := fold_right (fun x acc => Z.max (h x) acc) 0 l.
+
+Fixpoint ihash (c : iconst) : Z :=
+  match c with
+  | INone => mix 0 0
+  | IBool b => mix 1 (bool_hash b)
+  | IInt z => mix 2 z
+  | IFloat x => mix 3 (float_hash x)
+  | IComplex r i => mix 4 (float_hash r + 31 * float_hash i)
+  | IStr s => mix 5 (zs_hash s)
+  | IBytes b => mix 6 (zs_hash b)
+  | IEllipsis => mix 7 0
+  | ITuple l => mix 8 (lhash ihash l)
+  | IFrozenset l => mix 9 (set_hash ihash l)
+  end.
+
+Definition args_hash (a : args) : Z :=
+  lhash zs_hash (a_posonly a) + 31 * (lhash zs_hash (a_poskw a) + 31 * (opt_hash zs_hash (a_varpos a)
+  + 31 * (lhash zs_hash (a_kwonly a) + 31 * opt_hash zs_hash (a_varkw a)))).
+Definition function_hash (f : function) : Z :=
+  args_hash (fn_args f) + 31 * (opt_hash zs_hash (fn_doc f) + 31 * opt_hash fntype_id (fn_type f)).
+Definition addline_hash (a : addline) : Z :=
+  opt_hash (fun z => z) (al_line a) + 31 * zs_hash (al_offs a).
+
+Section DataHash.
+  Context {C : Type} (h : C -> Z).
+  Definition arg_hash (a : arg_ C) : Z :=
+    match a with
+    | AInt z => mix 0 z
+    | AJump t r => mix 1 (t + 31 * bool_hash r)
+    | AName s o => mix 2 (zs_hash s + 31 * opt_hash (fun z => z) o)
+    | AVarname s o => mix 3 (zs_hash s + 31 * opt_hash (fun z => z) o)
+    | AConst c o => mix 4 (h c + 31 * opt_hash (fun z => z) o)
+    | AFreevar s => mix 5 (zs_hash s)
+    | ACellvar s o => mix 6 (zs_hash s + 31 * opt_hash (fun z => z) o)
+    | ANoArg z => mix 7 z
+    end.
+  Definition instr_hash (i : instr_ C) : Z :=
+    i_name i + 31 * (arg_hash (i_arg i) + 31 * (opt_hash (fun z => z) (i_nargs i)
+    + 31 * (opt_hash (fun z => z) (i_line i) + 31 * zs_hash (i_lineoffs i)))).
+  Definition cd_hash_with (cd : code_data_ C) : Z :=
+    lhash (lhash instr_hash) (cd_blocks cd)
+    + 31 * (zs_hash (cd_filename cd) + 31 * (cd_firstline cd + 31 * (zs_hash (cd_name cd)
+    + 31 * (cd_stacksize cd + 31 * (opt_hash function_hash (cd_type cd)
+    + 31 * (lhash zs_hash (cd_freevars cd) + 31 * (bool_hash (cd_future_annotations cd)
+    + 31 * (bool_hash (cd_nested cd) + 31 * (opt_hash addline_hash (cd_addline cd)
+    + 31 * lhash arg_hash (cd_addargs cd)))))))))).
+End DataHash.
+
+Fixpoint chash (c : const) : Z :=
+  match c with
+  | KInner i => mix 0 (ihash i)
+  | KCode cd => mix 1 (cd_hash_with chash cd)
+  end.
+Definition cd_hash : code_data -> Z := cd_hash_with chash.
+
+(* [h] is constant on the class of [x] *)
+Definition hashP {A} (eqb : A -> A -> bool) (h : A -> Z) (x : A) : Prop :=
+  forall y, eqb x y = true -> h x = h y.
+
+Section HashLists.
+  Context {A : Type} (eqb : A -> A -> bool) (h : A -> Z).
+
+  Lemma lhash_respects l : Forall (hashP eqb h) l -> hashP (leqb eqb) (lhash h) l.
+  Proof.
+    unfold hashP. induction 1 as [|x xs Hx _ IH]; intros [|y ys] E; cbn [leqb] in E;
+      try discriminate E; auto.
+    apply andb_true_iff in E as [E1 E2].
+    change (lhash h (x :: xs)) with (h x + 31 * lhash h xs).
+    change (lhash h (y :: ys)) with (h y + 31 * lhash h ys).
+    now rewrite (Hx _ E1), (IH _ E2).
+  Qed.
+
+  Lemma set_hash_cons x xs : set_hash h (x :: xs) = Z.max (h x) (set_hash h xs).
+  Proof. reflexivity. Qed.
+
+  Lemma set_hash_nonneg l : 0 <= set_hash h l.
+  Proof. induction l as [|x xs IH]; [cbn; lia|]. rewrite set_hash_cons. lia. Qed.
+
+  Lemma set_hash_ge l p : In p l -> h p <= set_hash h l.
+  Proof.
+    induction l as [|x xs IH]; intros Hp; [destruct Hp|]. rewrite set_hash_cons.
+    destruct Hp as [->|Hp]; [lia|]. specialize (IH Hp). lia.
+  Qed.
+
+  Lemma set_hash_ub l M : 0 <= M -> (forall p, In p l -> h p <= M) -> set_hash h l <= M.
+  Proof.
+    intros HM. induction l as [|x xs IH]; intros H; [cbn; lia|]. rewrite set_hash_cons.
+    assert (h x <= M) by (apply H; now left).
+    assert (set_hash h xs <= M) by (apply IH; intros p Hp; apply H; now right).
+    lia.
+  Qed.
+
+  Lemma set_hash_respects l : Forall (hashP eqb h) l -> hashP (fs_eqb eqb) (set_hash h) l.
+  Proof.
+    unfold hashP. intros H l' E. rewrite Forall_forall in H. apply fs_eqb_true in E as [E1 E2].
+    apply Z.le_antisymm.
+    - apply set_hash_ub; [apply set_hash_nonneg|]. intros p Hp.
+      destruct (E1 p Hp) as (q & Hq & Epq). rewrite (H p Hp q Epq). now apply set_hash_ge.
+    - apply set_hash_ub; [apply set_hash_nonneg|]. intros q Hq.
+      destruct (E2 q Hq) as (p & Hp & Epq). rewrite <- (H p Hp q Epq). now apply set_hash_ge.
+  Qed.
+End HashLists.
+
+Lemma float_hash_respects x y : float_key_eqb x y = true -> float_hash x = float_hash y.
+Proof.
+  intros E. apply float_key_eqb_true in E as [[E1 E2]|E]; [|now subst].
+  unfold float_hash. now rewrite E1, E2.
+Qed.
+
+Theorem ihash_respects : forall a b, ikey_eqb a b = true -> ihash a = ihash b.
+Proof.
+  induction a as [ |x|x|x|r i|x|x| |l IH|l IH] using iconst_ind';
+    intros [ |y|y|y|r' i'|y|y| |l'|l'] E; try discriminate E; try reflexivity.
+  - apply (proj1 (ikey_bool_inv x y)) in E. now subst.
+  - apply (proj1 (ikey_int_inv x y)) in E. now subst.
+  - cbn [ikey_eqb] in E. cbn [ihash]. now rewrite (float_hash_respects _ _ E).
+  - apply (proj1 (ikey_complex_inv _ _ _ _)) in E as [E1 E2]. cbn [ihash].
+    now rewrite (float_hash_respects _ _ E1), (float_hash_respects _ _ E2).
+  - apply (proj1 (ikey_str_inv x y)) in E. now subst.
+  - apply (proj1 (ikey_bytes_inv x y)) in E. now subst.
+  - rewrite ikey_eqb_tuple in E. cbn [ihash]. f_equal.
+    exact (lhash_respects ikey_eqb ihash l IH l' E).
+  - rewrite ikey_eqb_frozenset in E. cbn [ihash]. f_equal.
+    exact (set_hash_respects ikey_eqb ihash l IH l' E).
+Qed.
+
+Section DataHashRespects.
+  Context {C : Type} (ceqb : C -> C -> bool) (h : C -> Z).
+
+  Lemma arg_hash_respects a : argP (hashP ceqb h) a -> hashP (arg_eqb ceqb) (arg_hash h) a.
+  Proof.
+    unfold hashP. destruct a; cbn [argP]; intros H [ | | | | | | | ] E; cbn in E;
+      try discriminate E;
+      rewrite ?andb_true_iff, ?Z.eqb_eq, ?str_eqb_spec, ?oz_eqb_spec, ?bool_eqb_spec in E;
+      cbn [arg_hash]; try (now intuition (subst; auto)).
+    destruct E as [-> E]. now rewrite (H _ E).
+  Qed.
+
+  Lemma instr_hash_respects i :
+    instrP (hashP ceqb h) i -> hashP (instr_eqb ceqb) (instr_hash h) i.
+  Proof.
+    intros H j E. apply instr_eqb_true in E as (E1 & E2 & E3 & E4 & E5).
+    unfold instr_hash. now rewrite E1, E3, E4, E5, (arg_hash_respects _ H _ E2).
+  Qed.
+
+  Lemma block_hash_respects b :
+    Forall (instrP (hashP ceqb h)) b -> hashP (leqb (instr_eqb ceqb)) (lhash (instr_hash h)) b.
+  Proof.
+    intros H. apply lhash_respects. eapply Forall_impl; [|exact H]. apply instr_hash_respects.
+  Qed.
+
+  Lemma cd_hash_with_respects cd :
+    cdP (hashP ceqb h) cd -> hashP (cd_eqb_with ceqb) (cd_hash_with h) cd.
+  Proof.
+    intros [HB HA] cd' E.
+    apply cd_eqb_with_true in E as (E1 & E2 & E3 & E4 & E5 & E6 & E7 & E8 & E9 & E10 & E11).
+    unfold cd_hash_with. rewrite E2, E3, E4, E5, E6, E7, E8, E9, E10.
+    assert (HB' : Forall (hashP (leqb (instr_eqb ceqb)) (lhash (instr_hash h))) (cd_blocks cd))
+      by (eapply Forall_impl; [|exact HB]; apply block_hash_respects).
+    assert (HA' : Forall (hashP (arg_eqb ceqb) (arg_hash h)) (cd_addargs cd))
+      by (eapply Forall_impl; [|exact HA]; apply arg_hash_respects).
+    now rewrite (lhash_respects _ _ _ HB' _ E1), (lhash_respects _ _ _ HA' _ E11).
+  Qed.
+End DataHashRespects.
+
+Theorem chash_respects : forall a b, key_eqb a b = true -> chash a = chash b.
+Proof.
+  induction a as [i|cd IH] using const_ind'; intros [j|cd'] E; cbn [key_eqb] in E;
+    try discriminate E; cbn [chash]; f_equal.
+  - now apply ihash_respects.
+  - exact (cd_hash_with_respects key_eqb chash cd IH cd' E).
+Qed.
+
+Theorem cd_hash_respects : forall a b, cd_eqb a b = true -> cd_hash a = cd_hash b.
+Proof.
+  intros a. apply (cd_hash_with_respects key_eqb chash). apply cdP_all. exact chash_respects.
+Qed.
+
+(* D7 (NaN constants equal but hashed differently) cannot happen for this hash *)
+Corollary chash_nan x y : float_is_nan x = true -> float_is_nan y = true ->
+  key_eqb (KInner (IFloat x)) (KInner (IFloat y)) = true
+  /\ chash (KInner (IFloat x)) = chash (KInner (IFloat y)).
+Proof.
+  intros Nx Ny. assert (E : key_eqb (KInner (IFloat x)) (KInner (IFloat y)) = true).
+  { cbn [key_eqb ikey_eqb]. apply float_key_eqb_true. auto. }
+  split; [exact E|]. now apply chash_respects.
+Qed.
+
+(* ------------------------------------------------------------------ *)
+Print Assumptions iconst_ind'.
+Print Assumptions const_ind'.
+Print Assumptions ikey_eqb_refl.
+Print Assumptions ikey_eqb_sym.
+Print Assumptions ikey_eqb_trans.
+Print Assumptions key_eqb_refl.
+Print Assumptions key_eqb_sym.
+Print Assumptions key_eqb_trans.
+Print Assumptions cd_eqb_refl.
+Print Assumptions cd_eqb_sym.
+Print Assumptions cd_eqb_trans.
+Print Assumptions f64_is_nan_model.
+Print Assumptions ikey_eqb_pykey.
+Print Assumptions ikey_eqb_pykey_nan_free.
+Print Assumptions ikey_eqb_pykey_differ.
+Print Assumptions ikey_pos_neg_zero.
+Print Assumptions ikey_tuple_inv.
+Print Assumptions ikey_tuple_diff.
+Print Assumptions ikey_frozenset_inv.
+Print Assumptions ikey_complex_inv.
+Print Assumptions ikey_eqb_tag.
+Print Assumptions ihash_respects.
+Print Assumptions chash_respects.
+Print Assumptions cd_hash_respects.
